@@ -55,16 +55,9 @@ def make_queries(tier):
         P = E.int("placeholder_len", C["maxlen"])
         L = E.int("signed_len", C["maxlen"])
         has_ph = E.bool("placeholder_recorded")
+        fmt = E.str("format", 12, "printable", min_len=1)
         if E.mode != "symbolic":
-            mi = E.model_inputs
-            if not mi["placeholder_recorded"]:
-                return
-            grow = max(0, int(mi["signed_len"]) - int(mi["placeholder_len"]))
-            r = E.native("sign_embeddable_growth", [min(grow, 200000)])
-            if "setup_error" in r:
-                return  # the scenario could not be set up: nothing is claimed (the run ends inconclusive)
-            E.prove("an Ok result has exactly the placeholder's length", z3.BoolVal((not r["ok"]) or r["signed_len"] == r["placeholder_len"]))
-            return
+            return replay_scenarios(E, ["an Ok result has exactly the placeholder's length", "an Ok result is never shorter than the placeholder (any format)"])
         I = E.I
         flags = {n: E.bool(n) for n in ("format_is_bmff", "has_data_hash", "has_bmff_hash", "has_box_hash", "to_store_ok", "signer_ok", "dynamic_assertions_present",
                                         "add_placeholders_ok", "sign_ok", "compose_ok")}
@@ -91,7 +84,7 @@ def make_queries(tier):
                          ("Store::get_composed_manifest", compose)):
             I.overrides[name] = fn
         builder = VStruct("Builder", {"placeholder_jumbf_len": opt(has_ph.e, P)})
-        r = E.call("Builder::sign_embeddable", builder, VStr(bstr.lit("image/jpeg")))
+        r = E.call("Builder::sign_embeddable", builder, fmt)
         good = is_ok(r)
         exact = z3.And([z3.Implies(g, n == P.e) for g, n in composed_in]) if composed_in else z3.BoolVal(True)
         reached = z3.Or([g for g, _ in composed_in]) if composed_in else z3.BoolVal(False)
@@ -107,11 +100,7 @@ def make_queries(tier):
     def q_placeholder_records_composed_length(E):
         """Builder::placeholder: the length it records for sign_embeddable is the length of the JUMBF it composes and hands out"""
         if E.mode != "symbolic":
-            r = E.native("sign_embeddable_growth", [0])
-            if "setup_error" in r:
-                return
-            E.prove("the recorded placeholder length is the length of the composed JUMBF", z3.BoolVal((not r["ok"]) or r["signed_len"] == r["placeholder_len"]))
-            return
+            return replay_scenarios(E, ["the recorded placeholder length is the length of the composed JUMBF"])
         I = E.I
         I.loop_bound = 12
         flags = {n: E.bool(n) for n in ("format_is_bmff", "needs_placeholder", "has_data_hash", "has_bmff_hash", "has_box_hash", "to_store_ok", "add_assertion_ok",
@@ -174,6 +163,27 @@ def make_queries(tier):
         E.cover("an older recorded length is replaced", z3.And(nonempty, flags["had_older_placeholder"].e, OLD.e != PL.e))
 
     return [q_sign_embeddable_matches_placeholder, q_placeholder_records_composed_length]
+
+
+def replay_scenarios(E, labels):
+    """The model's counterexample fixes lengths and stub outcomes that cannot be dictated to the real pipeline, so the replay runs the
+    real Builder through the public API over a family of placeholder-workflow scenarios (exclusion layouts of every CBOR width class, a
+    grown manifest, placeholder() called twice) for the counterexample's format (and image/jpeg): the violation is reproduced when some
+    scenario returns Ok with a length different from the placeholder handed out last."""
+    mi = E.model_inputs
+    fmts = []
+    f = mi.get("format")
+    if isinstance(f, str) and f.isascii() and f.strip() and "/" in f:
+        fmts.append(f.strip())
+    for dflt in ("image/jpeg", "image/tiff", "image/png"):
+        if dflt not in fmts:
+            fmts.append(dflt)
+    bad = []
+    for fm in fmts:
+        r = E.native("embeddable_scenarios", [fm])
+        bad += [dict(m, format=fm) for m in r["mismatches"]]
+    for lb in labels:
+        E.prove(lb, z3.BoolVal(not bad))
 
 
 def _comp_embeddable(I, args):
